@@ -32,6 +32,10 @@ DoAddChild == \E p \in Idxs, l \in Labels, v \in Vals :
     /\ Step(AddChild(t, p, l, v, K), Op("add_child", p, l, v))
 DoTryRemove == \E p \in Idxs, l \in Labels :
     Step(TryRemoveChild(t, p, l, K), Op("try_remove_child", p, l, 0))
+\* remove_child = try_remove_child + expect: generated only where it is documented not to panic (the child exists)
+DoRemoveChild == \E p \in Idxs, l \in Labels :
+    /\ p \in Occ(t) /\ t.nodes[p].ch[l + 1] # NONE
+    /\ Step(TryRemoveChild(t, p, l, K), Op("remove_child", p, l, 0))
 DoRemoveDesc == \E p \in Idxs :
     Step(RemoveAllDesc(t, p), Op("remove_all_descendants", p, 0, 0))
 DoMerge == \E p \in Idxs, l \in Labels :
@@ -44,7 +48,7 @@ DoReRoot == \E v \in Vals :
     /\ REROOT /\ CanInsert(t)
     /\ Step(AddRoot(t, v, K), Op("add_root", 0, 0, v))
 
-Next == DoAddChild \/ DoTryRemove \/ DoRemoveDesc \/ DoMerge \/ DoUpdate \/ DoReRoot
+Next == DoAddChild \/ DoTryRemove \/ DoRemoveChild \/ DoRemoveDesc \/ DoMerge \/ DoUpdate \/ DoReRoot
 
 Spec == Init /\ [][Next]_vars
 
